@@ -22,7 +22,10 @@ open Glom Glom.C14
     keys+get / iterate structure with the guard for instances of list / tuple / set / frozenset and
     exactly the `except` clauses the model mirrors; the `'x'`/`'X'` branch seeds the visited set with
     the root, walks the growing list, puts the root in front, evaluates the remaining ops per entry
-    swallowing PathAccessError only, and breaks; `__stars__` counts both wildcards;
+    swallowing PathAccessError only, and breaks — the remainder it evaluates on every entry being rooted
+    at T for T-rooted and for S-rooted paths alike (`c14RemainderRoot`: an S-rooted path continues
+    from each entry, it does not start again from the scope; repaired defect 62e884e) —;
+    `__stars__` counts both wildcards;
     `Path.from_text` maps `*` / `**`; `_apply_for_each` flattens `layers - 1` times. -/
 theorem c14_facts_wf : factsOK = true := by decide
 
